@@ -264,8 +264,13 @@ class Gen:
                 spec['kw_only'] = True
                 if 'tuple' in in_format:
                     has_default = True
-            if self.noinit and r.random() < 0.08:
+            if self.noinit and r.random() < 0.10:
                 spec['init'] = False
+                has_default = True
+                if not kw:
+                    seen_default = True
+                if 'tuple' not in in_format and r.random() < 0.7:
+                    in_format = ['tuple', 'struct']
             if has_default:
                 if r.random() < 0.25:
                     f['default'] = {'factory': 'list'}
@@ -288,6 +293,23 @@ class Gen:
         if r.random() < 0.15 and names:
             hook = r.choice(['raise_always', 'reject_neg:' + names[0]])
         d = {'name': name, 'fields': fields, 'opts': opts, 'hook': hook}
+        if r.random() < 0.3 and tagged_tag is None:
+            # single inheritance: the parent declares a prefix of the fields (and the hook, which the child inherits)
+            k = r.randint(0, len(fields))
+            while k < len(fields) and fields[k]['ty'] == 'KW_ONLY':
+                k += 1
+            pname = self.fresh('P')
+            parent = {'name': pname, 'fields': fields[:k], 'opts': dict(opts), 'hook': hook}
+            if 'KW_ONLY' in [f['ty'] for f in fields[:k]]:
+                parent = None
+            if parent is not None:
+                self.decl['classes'].append(parent)
+                self.class_info[pname] = parent
+                d = {'name': name, 'fields': fields[k:], 'opts': {}, 'hook': None, 'base': {'cls': [pname, []]}}
+                full = {'name': name, 'fields': fields, 'opts': opts, 'hook': hook}
+                self.decl['classes'].append(d)
+                self.class_info[name] = full
+                return {'cls': [name, []]}
         self.decl['classes'].append(d)
         self.class_info[name] = d
         return {'cls': [name, []]}
@@ -412,6 +434,12 @@ class Gen:
             if 'rename' in spec:
                 names = [spec['rename'], f['name']]
             out[r.choice(names)] = self.valid(f['ty'], depth + 1)
+            if len(names) > 1 and r.random() < 0.12:
+                other = r.choice(names)
+                if other not in out:
+                    out[other] = self.valid(f['ty'], depth + 1) if r.random() < 0.5 else self.rscalar()
+                    if r.random() < 0.5:   # put the second spelling first, and make the first occurrence possibly bad
+                        out = {other: out.pop(other), **out}
         return out
 
     def valid_tagged(self, inner, tagged, depth):
@@ -773,7 +801,8 @@ def scenarios_cond(seed, n):
         ge = Gen(g.randrange(1 << 62), max_depth=2, classes=False)
         r = ge.r
         inner = r.choice(['int', 'float', 'int', 'float', 'str', {'seq': ['list', 'int']}, {'seq': ['tuple', 'any']}, {'map': ['dict', ['str', 'int']]},
-                          {'union': ['int', 'str']}, 'any', 'bool', 'complex'])
+                          {'union': ['int', 'str']}, 'any', 'bool', 'complex', {'seq': ['set', 'int']}, {'seq': ['frozenset', 'any']},
+                          {'seq': ['set', 'int']}, 'Fraction', 'date', {'map': ['dict', ['int', 'any']]}, 'float'])
         anns = []
         for _ in range(r.randint(1, 3)):
             p = r.random()
@@ -793,7 +822,8 @@ def scenarios_cond(seed, n):
             ty = {'seq': ['list', ty]}
         # boundary values
         leaf = lambda: r.choice([0, 1, -1, 2, 3, 5, 6, -2, -3, 0.0, -0.0, 0.5, 2.0, 5.0, float('inf'), float('-inf'), float('nan'), True, False,
-                                 '', 'a', 'abc', [], [1], [1, 2], [1, 2, 3, 4], (), (1,), {}, {'a': 1}, {'a': 1, 'b': 2}, None, 2 ** 60, complex(1, 0)])
+                                 '', 'a', 'abc', [], [1], [1, 2], [1, 2, 3, 4], (), (1,), {}, {'a': 1}, {'a': 1, 'b': 2}, None, 2 ** 60, complex(1, 0),
+                                 [1, 1], [1, 1, 2], [2, 2, 2, 2], [0, 0.0, False], '1/2', '2020-01-02', 4, 6, {1: 2, 1.0: 3}])
         v = leaf()
         if isinstance(ty, dict) and 'seq' in ty:
             v = [leaf() for _ in range(r.randint(0, 3))]
@@ -978,4 +1008,116 @@ def scenarios_hashtable(seed, n=0):
                          'opts': {'unsafe_hash': u, 'eq': e, 'frozen': f}, 'hook': None, 'explicit_hash': x}
                     out.append({'id': f'h{n}', 'decl': {'enums': [], 'subs': [], 'classes': []}, 'op': 'process', 'decls': [d],
                                 'explicit_hash': x, 'stream': 'hashcube', 'spell': 0})
+    return out
+
+
+def scenarios_shapes(seed, n, op='render'):
+    """tree-shape boosted scenarios for C07/C08: nested products (struct literals, dataclasses, sequences, tuples) with 1-3
+    targeted local defects: a wrong leaf deep down, an unknown key / a missing key / a duplicated (aliased) key at a chosen level"""
+    g = random.Random(seed)
+    out = []
+    for i in range(n):
+        ge = Gen(g.randrange(1 << 62), max_depth=3, classes=True, noinit=False)
+        r = ge.r
+
+        def shape(depth):
+            p = r.random()
+            if depth >= 3 or p < 0.25:
+                return r.choice(['int', 'str', 'float', {'union': ['int', 'NoneType']}, {'seq': ['list', 'int']}])
+            if p < 0.5:
+                names = r.sample(FIELD_NAMES, r.randint(1, 3))
+                if depth == 0 or True:
+                    return ('struct', [[nm, shape(depth + 1)] for nm in names])
+            if p < 0.7:
+                name = ge.fresh('D')
+                fields = []
+                seen_default = False
+                for k, fn in enumerate(r.sample([x for x in FIELD_NAMES if x != 'tag'], r.randint(1, 3))):
+                    f = {'name': fn, 'ty': shape(depth + 1)}
+                    if r.random() < 0.4:
+                        f['spec'] = {'aliases': [fn + '_alias', 'al%d' % k]}
+                    fields.append(f)
+                    if r.random() < 0.12:
+                        fields.append({'name': 'ni%d' % k, 'ty': 'int', 'default': {'value': ENC.enc(0)}, 'spec': {'init': False}})
+                        seen_default = True
+                d = {'name': name, 'fields': fields, 'opts': {}, 'hook': None}
+                if r.random() < 0.3:
+                    d['opts']['in_format'] = ['tuple', 'struct']
+                if r.random() < 0.2:
+                    d['opts']['allow_extra'] = True
+                return ('cls', d)
+            if p < 0.85:
+                return {'seq': [r.choice(['list', 'Sequence']), shape(depth + 1)]}
+            return {'tuple': [shape(depth + 1) for _ in range(r.randint(1, 3))]}
+
+        def realise(sh, lit_ok):
+            """shape -> type descriptor (struct literals only where typing allows them: top level / inside literals)"""
+            if isinstance(sh, tuple) and sh[0] == 'struct':
+                if lit_ok:
+                    return {'struct': [[nm, realise(x, True)] for nm, x in sh[1]]}
+                name = ge.fresh('D')
+                d = {'name': name, 'fields': [{'name': nm, 'ty': realise(x, False)} for nm, x in sh[1]], 'opts': {}, 'hook': None}
+                ge.decl['classes'].append(d)
+                ge.class_info[name] = d
+                return {'cls': [name, []]}
+            if isinstance(sh, tuple) and sh[0] == 'cls':
+                d = sh[1]
+                d = dict(d, fields=[dict(f, ty=realise(f['ty'], False)) for f in d['fields']])
+                ge.decl['classes'].append(d)
+                ge.class_info[d['name']] = d
+                return {'cls': [d['name'], []]}
+            if isinstance(sh, dict) and 'seq' in sh:
+                return {'seq': [sh['seq'][0], realise(sh['seq'][1], False)]}
+            if isinstance(sh, dict) and 'tuple' in sh:
+                return {'tuple': [realise(x, False) for x in sh['tuple']]}
+            return sh
+
+        ty = realise(shape(0), True)
+        try:
+            v = ge.valid(ty)
+        except Exception:
+            continue
+
+        def mappings(x, acc, path=()):
+            if isinstance(x, dict):
+                acc.append(x)
+                for k, y in x.items():
+                    mappings(y, acc, path + (k,))
+            elif isinstance(x, (list, tuple)):
+                for y in x:
+                    mappings(y, acc, path)
+            return acc
+
+        def deep_mutate(x, depth=0):
+            if isinstance(x, dict) and x and (depth < 3 and r.random() < 0.8):
+                k = r.choice(list(x))
+                return {kk: (deep_mutate(vv, depth + 1) if kk == k else vv) for kk, vv in x.items()}
+            if isinstance(x, (list, tuple)) and x and (depth < 3 and r.random() < 0.8):
+                j = r.randrange(len(x))
+                return type(x)(deep_mutate(y, depth + 1) if jj == j else y for jj, y in enumerate(x))
+            return r.choice(['bad', None, 3.5, [None], {'zz9': 1}]) if not isinstance(x, str) else 7
+
+        for _ in range(r.randint(1, 3)):
+            p = r.random()
+            ms = mappings(v, [])
+            if p < 0.4 or not ms:
+                v = deep_mutate(v)
+            elif p < 0.6:
+                r.choice(ms)['extra_key'] = 1
+            elif p < 0.8:
+                m = r.choice(ms)
+                if m:
+                    del m[r.choice(list(m))]
+            else:
+                m = r.choice(ms)
+                if m:
+                    k = r.choice(list(m))
+                    if isinstance(k, str):
+                        m[k + '_alias'] = m[k]
+        try:
+            wire = ENC.enc(v)
+            json.dumps(wire)
+        except Exception:
+            continue
+        out.append({'id': f's{seed}:{i}', 'decl': ge.decl, 'op': op, 'ty': ty, 'val': wire, 'spell': r.randrange(2), 'stream': 'shapes'})
     return out
